@@ -547,7 +547,7 @@ def do_check(prop, tier, seed, scale=1.0, jobs=NCPU):
         by_key = {}
         for x in sorted(total.viols + total.crashes, key=lambda x: x["index"]):
             by_key.setdefault(x["key"], []).append(x)
-        reported = []; known_hits = []; other_prop = {}; unshrunk = []
+        reported = []; known_hits = []; other_prop = {}; unshrunk = []; unconfirmed = []
         exit_code = 0
         for key, xs in sorted(by_key.items(), key=lambda kv: -len(kv[1])):
             kprop = key.split("/")[0]
@@ -557,9 +557,10 @@ def do_check(prop, tier, seed, scale=1.0, jobs=NCPU):
             x = xs[0]
             conf = confirm_violation(bins, x, seed)
             if conf is None:
-                print(f"HARNESS-NONDETERMINISM property={prop} key={key} run={x['index']} variant={x['variant']} "
-                      f"first={x['evhash']} detail={x['detail']}: neither the original variant nor the asan variant reproduces it deterministically")
-                return 2
+                # not reproducible in a fresh process: never reported as a violation. Whether that makes the check
+                # broken (exit 2) is decided below: not if other violations of this property were confirmed
+                unconfirmed.append((key, x))
+                continue
             cvariant, text, ckey = conf
             if ckey != key:
                 # the deterministic form of this failure (usually the sanitizer's verdict at the faulting instruction)
@@ -596,6 +597,13 @@ def do_check(prop, tier, seed, scale=1.0, jobs=NCPU):
                                trace=stderr.split("\n")[-60:]), f, indent=1)
             reported.append((key, path, final[0].get("detail", x["detail"]), len(xs)))
 
+        if unconfirmed and not reported and not known_hits:
+            key, x = unconfirmed[0]
+            print(f"HARNESS-NONDETERMINISM property={prop} key={key} run={x['index']} variant={x['variant']} "
+                  f"first={x['evhash']} detail={x['detail']}: neither the original variant nor the asan variant reproduces it deterministically")
+            return 2
+        for key, x in unconfirmed:
+            print(f"  unconfirmed, not reported (did not reproduce in a fresh process; usually collateral damage of the violations below): key={key} run={x['index']} variant={x['variant']}")
         for kf, cnt in known_hits:
             print(f"KNOWN-FINDING: property={prop} {kf['key']} {kf.get('what', '')} ({cnt} runs)")
         for key, path, detail, cnt in reported:
